@@ -1,6 +1,6 @@
 /* C04: authorization is enforced — the harness is the client side of the session protocol (OpenSSL),
  * the Lean checker recomputes everything independently (Crypto.Sha: cpHash, rpHash, HMAC, KDFa). */
-typedef struct { uint32_t h; uint8_t nonceTPM[32]; uint8_t nonceCaller[32]; uint8_t key[32]; int keylen; uint32_t bind; char bindAuth[8]; uint8_t stale[32]; int have_stale; int is_policy, needAuth, needPw; } HSess;
+typedef struct { uint32_t h; uint8_t nonceTPM[32]; uint8_t nonceCaller[32]; uint8_t key[32]; int keylen; uint32_t bind; char bindAuth[8]; uint8_t stale[32]; int have_stale; int is_policy, needAuth, needPw; int sym; /* 0 none, 1 XOR-SHA256, 2 AES-128-CFB */ } HSess;
 
 static void c04_sha256(const uint8_t *a, size_t an, const uint8_t *b2, size_t bn, const uint8_t *c, size_t cn, uint8_t out[32]) {
     EVP_MD_CTX *m = EVP_MD_CTX_new(); EVP_DigestInit_ex(m, EVP_sha256(), NULL);
@@ -24,6 +24,83 @@ static int c04_start(Buf *b, HSess *s, uint32_t bind, const char *bindAuth, int 
     tr_begin("sstart rc=0 h=%u type=%d bind=%u", s->h, type, bind); trhex("nc", s->nonceCaller, 32); trhex("nt", s->nonceTPM, 32); trhex("skey", s->key, s->keylen); tr_end();
     return 0;
 }
+
+#include <openssl/ec.h>
+#include <openssl/bn.h>
+#include <openssl/obj_mac.h>
+#include <openssl/aes.h>
+/* ECC P-256 decryption key in the owner hierarchy for salted sessions: returns handle, public point */
+static uint32_t c04_saltkey(Buf *b, const char *ownerAuth, uint8_t x[32], uint8_t y[32]) {
+    Buf t = {0}; b_u16(&t, 0x0023); b_u16(&t, ALG_SHA256); b_u32(&t, 0x00020472u); b_u16(&t, 0); b_u16(&t, ALG_NULL); b_u16(&t, ALG_NULL); b_u16(&t, 0x0003); b_u16(&t, ALG_NULL); b_u16(&t, 0); b_u16(&t, 0);
+    cmd_begin(b, ST_SESSIONS, CC_CreatePrimary); b_u32(b, RH_OWNER); auth_pw(b, ownerAuth, strlen(ownerAuth)); b_u16(b, 4); b_u16(b, 0); b_u16(b, 0); b_2b(b, t.p, t.n); b_u16(b, 0); b_u32(b, 0);
+    Rsp r = run(b); b_free(&t); if (r.rc != 0) { tr("saltkey rc=%u", r.rc); return 0; }
+    Rd rd = rsp_params(&r, 1); uint16_t pl; const uint8_t *pub = r_2b(&rd, &pl); if (rd.err || pl < 2 + 2 + 4 + 2 + 8 + 4 + 64) return 0;
+    /* ... type nameAlg attrs policy(2B empty) sym(NULL) scheme(NULL) curve kdf(NULL) x(2B) y(2B) */
+    const uint8_t *q = pub + 2 + 2 + 4 + 2 + 2 + 2 + 2 + 2; if (g16(q) != 32) return 0; memcpy(x, q + 2, 32); q += 34; if (g16(q) != 32) return 0; memcpy(y, q + 2, 32);
+    return g32(r.p + 10);
+}
+/* session with optional salt (ECDH against tpmKey) and optional parameter encryption */
+static int c04_start_ext(Buf *b, HSess *s, uint32_t bind, const char *bindAuth, uint32_t tpmKey, const uint8_t kx[32], const uint8_t ky[32], int sym) {
+    memset(s, 0, sizeof *s); s->sym = sym;
+    for (int i = 0; i < 32; i++) s->nonceCaller[i] = rnd(256);
+    uint8_t salt[32], ephx[32], ephy[32], ephd[32]; int saltlen = 0; Buf enc = {0};
+    if (tpmKey != RH_NULL) {
+        EC_GROUP *g = EC_GROUP_new_by_curve_name(NID_X9_62_prime256v1); BN_CTX *ctx = BN_CTX_new();
+        uint8_t dbytes[32]; for (int i = 0; i < 32; i++) dbytes[i] = rnd(256); dbytes[0] &= 0x7f; dbytes[31] |= 1;
+        BIGNUM *d = BN_bin2bn(dbytes, 32, NULL), *bx = BN_bin2bn(kx, 32, NULL), *by = BN_bin2bn(ky, 32, NULL), *ox = BN_new(), *oy = BN_new();
+        EC_POINT *eph = EC_POINT_new(g), *peer = EC_POINT_new(g), *z = EC_POINT_new(g);
+        EC_POINT_mul(g, eph, d, NULL, NULL, ctx); EC_POINT_get_affine_coordinates(g, eph, ox, oy, ctx); BN_bn2binpad(ox, ephx, 32); BN_bn2binpad(oy, ephy, 32);
+        EC_POINT_set_affine_coordinates(g, peer, bx, by, ctx); EC_POINT_mul(g, z, NULL, peer, d, ctx); EC_POINT_get_affine_coordinates(g, z, ox, oy, ctx);
+        uint8_t zx[32]; BN_bn2binpad(ox, zx, 32); memcpy(ephd, dbytes, 32);
+        /* KDFe(SHA256, Z, "SECRET", ephemeral.x, key.x, 256) */
+        Buf m = {0}; b_u32(&m, 1); b_bytes(&m, zx, 32); b_bytes(&m, "SECRET", 7); b_bytes(&m, ephx, 32); b_bytes(&m, kx, 32); c04_sha256(m.p, m.n, NULL, 0, NULL, 0, salt); b_free(&m); saltlen = 32;
+        b_2b(&enc, ephx, 32); b_2b(&enc, ephy, 32);
+        EC_POINT_free(eph); EC_POINT_free(peer); EC_POINT_free(z); BN_free(d); BN_free(bx); BN_free(by); BN_free(ox); BN_free(oy); BN_CTX_free(ctx); EC_GROUP_free(g);
+    }
+    cmd_begin(b, ST_NO_SESSIONS, CC_StartAuthSession); b_u32(b, tpmKey); b_u32(b, bind); b_2b(b, s->nonceCaller, 32); b_2b(b, enc.p, enc.n); b_u8(b, 0);
+    if (sym == 1) { b_u16(b, 0x000A); b_u16(b, ALG_SHA256); } else if (sym == 2) { b_u16(b, 0x0006); b_u16(b, 128); b_u16(b, 0x0043); } else b_u16(b, ALG_NULL);
+    b_u16(b, ALG_SHA256);
+    Rsp r = run(b); b_free(&enc);
+    if (r.rc != 0 || r.len < 16 + 32) { tr("sstart rc=%u", r.rc); return -1; }
+    s->h = g32(r.p + 10); memcpy(s->nonceTPM, r.p + 16, 32); s->bind = bind; strcpy(s->bindAuth, bindAuth);
+    if (bind != RH_NULL || saltlen) { uint8_t k[64]; int kl = 0; if (bind != RH_NULL) { kl = (int)strlen(bindAuth); memcpy(k, bindAuth, kl); } memcpy(k + kl, salt, saltlen); kl += saltlen;
+        c04_kdfa(k, kl, "ATH", s->nonceTPM, 32, s->nonceCaller, 32, s->key); s->keylen = 32; }
+    tr_begin("sstart rc=0 h=%u type=0 bind=%u sym=%d tpmkey=%u", s->h, bind, sym, tpmKey); trhex("nc", s->nonceCaller, 32); trhex("nt", s->nonceTPM, 32); trhex("skey", s->key, s->keylen);
+    if (saltlen) { trhex("ephd", ephd, 32); trhex("kx", kx, 32); trhex("ky", ky, 32); } tr_end();
+    return 0;
+}
+/* the parameter-encryption mask/cipher of the session protocol, as the CLIENT computes it (OpenSSL) */
+static void c04_param_crypt(HSess *s, const char *entityAuth, int bound, const uint8_t *nNewer, const uint8_t *nOlder, uint8_t *data, int len, int encrypt) {
+    uint8_t key[64]; int kl = s->keylen; memcpy(key, s->key, kl); if (!bound) { memcpy(key + kl, entityAuth, strlen(entityAuth)); kl += (int)strlen(entityAuth); }
+    if (s->sym == 1) { /* XOR: KDFa(key, "XOR", nonceNewer, nonceOlder, len*8) in 32-byte blocks */
+        for (int blk = 0, off = 0; off < len; blk++, off += 32) { Buf m = {0}; uint8_t out[32]; b_u32(&m, blk + 1); b_bytes(&m, "XOR", 4); b_bytes(&m, nNewer, 32); b_bytes(&m, nOlder, 32); b_u32(&m, len * 8);
+            c04_hmac(key, kl, m.p, m.n, out); b_free(&m); for (int q = 0; q < 32 && off + q < len; q++) data[off + q] ^= out[q]; } }
+    else if (s->sym == 2) { uint8_t ki[32]; Buf m = {0}; b_u32(&m, 1); b_bytes(&m, "CFB", 4); b_bytes(&m, nNewer, 32); b_bytes(&m, nOlder, 32); b_u32(&m, 256); c04_hmac(key, kl, m.p, m.n, ki); b_free(&m);
+        AES_KEY ak; AES_set_encrypt_key(ki, 128, &ak); int num = 0; uint8_t iv[16]; memcpy(iv, ki + 16, 16); uint8_t *tmp = malloc(len ? len : 1);
+        AES_cfb128_encrypt(data, tmp, len, &ak, iv, &num, encrypt ? AES_ENCRYPT : AES_DECRYPT); memcpy(data, tmp, len); free(tmp); }
+}
+/* NV_Write with an encrypted data parameter / NV_Read with an encrypted response, through session s */
+static void c04_enc_nv(Buf *b, HSess *s, uint32_t idx, const uint8_t *name, int nl, const char *auth, int write, uint8_t *nvdata, int corrupt) {
+    uint8_t nc[32]; for (int i = 0; i < 32; i++) nc[i] = rnd(256);
+    uint8_t plain[16]; int dl = 4 + 4 * rnd(3), off = 4 * rnd(2); for (int q = 0; q < dl; q++) plain[q] = rnd(256);
+    Buf params = {0};
+    if (write) { uint8_t enc[16]; memcpy(enc, plain, dl); c04_param_crypt(s, auth, 0, nc, s->nonceTPM, enc, dl, 1); b_u16(&params, dl); b_bytes(&params, enc, dl); b_u16(&params, off); }
+    else { b_u16(&params, dl); b_u16(&params, off); }
+    uint8_t cph[32], hm[32]; Buf m = {0}; b_u32(&m, write ? CC_NV_Write : CC_NV_Read); b_bytes(&m, name, nl); b_bytes(&m, name, nl); b_bytes(&m, params.p, params.n); c04_sha256(m.p, m.n, NULL, 0, NULL, 0, cph); b_reset(&m);
+    uint8_t attrs = 0x01 | (write ? 0x20 : 0x40); uint8_t key[64]; int kl = s->keylen; memcpy(key, s->key, kl); memcpy(key + kl, auth, strlen(auth)); kl += (int)strlen(auth);
+    b_bytes(&m, cph, 32); b_bytes(&m, nc, 32); b_bytes(&m, s->nonceTPM, 32); b_u8(&m, attrs); c04_hmac(key, kl, m.p, m.n, hm); b_free(&m);
+    if (corrupt) hm[rnd(32)] ^= 1;
+    cmd_begin(b, ST_SESSIONS, write ? CC_NV_Write : CC_NV_Read); b_u32(b, idx); b_u32(b, idx);
+    b_u32(b, 4 + 2 + 32 + 1 + 2 + 32); b_u32(b, s->h); b_2b(b, nc, 32); b_u8(b, attrs); b_2b(b, hm, 32); b_bytes(b, params.p, params.n); b_free(&params);
+    Rsp r = run(b);
+    tr_begin("auth what=%s corrupt=%d sh=%u rc=%u", write ? "enc-nvwrite" : "enc-nvread", corrupt ? 1 : 0, s->h, r.rc); trhex("req", b->p, b->n); trhex("rsp", r.p, r.len); tr_end();
+    if (r.rc == 0 && r.tag == ST_SESSIONS) { uint32_t psz = g32(r.p + 10); const uint8_t *sa = r.p + 14 + psz;
+        if (14 + psz + 2 + 32 <= r.len && g16(sa) == 32) { memcpy(s->stale, s->nonceTPM, 32); s->have_stale = 1; memcpy(s->nonceTPM, sa + 2, 32); }
+        if (write) memcpy(nvdata + off, plain, dl); }
+    if (write) { cmd_begin(b, ST_SESSIONS, CC_NV_Read); b_u32(b, idx); b_u32(b, idx); auth_pw(b, auth, strlen(auth)); b_u16(b, 16); b_u16(b, 0); Rsp rr = run(b);
+        tr_begin("effect handle=%u cmd_rc=%u rc=%u", idx, r.rc, rr.rc); if (rr.rc == 0) trhex("actual", rr.p + 16, 16); tr_end(); }
+}
+
 /* what to corrupt in an otherwise correct authorization */
 enum { K_NONE, K_HMAC, K_AUTHVAL, K_STALE_NONCE, K_PARAM, K_ATTR, K_NAME, K_MISSING, K_NCOUNT };
 
@@ -337,6 +414,15 @@ static void scen_c04(int histories, int rounds) {
         }
         cmd_begin(&b, ST_NO_SESSIONS, CC_FlushContext); b_u32(&b, su.h); run(&b); cmd_begin(&b, ST_NO_SESSIONS, CC_FlushContext); b_u32(&b, sb.h); run(&b);
         tr("sflush h=%u", su.h); tr("sflush h=%u", sb.h);
+        /* phase 2: sessions with parameter encryption — XOR and AES-CFB; unsalted, salted (ECDH against an ECC key in the TPM), bound+salted */
+        { uint8_t kx[32], ky[32]; uint32_t saltkey = c04_saltkey(&b, ownerAuth, kx, ky); HSess se[3]; int have_se[3];
+          int kind0 = rnd(2);
+          have_se[0] = c04_start_ext(&b, &se[0], RH_NULL, "", RH_NULL, NULL, NULL, 1 + kind0) == 0;
+          have_se[1] = saltkey && c04_start_ext(&b, &se[1], RH_NULL, "", saltkey, kx, ky, 2 - kind0) == 0;
+          have_se[2] = saltkey && c04_start_ext(&b, &se[2], RH_OWNER, ownerAuth, saltkey, kx, ky, 1 + rnd(2)) == 0;
+          if (saltkey) { cmd_begin(&b, ST_NO_SESSIONS, CC_FlushContext); b_u32(&b, saltkey); run(&b); }
+          for (int i = 0; i < rounds / 3; i++) { int k = rnd(3); if (have_se[k]) c04_enc_nv(&b, &se[k], idx, nvname, nvnl, "nv1", chance(50), nvdata, chance(15)); }
+          for (int k = 0; k < 3; k++) if (have_se[k]) { cmd_begin(&b, ST_NO_SESSIONS, CC_FlushContext); b_u32(&b, se[k].h); run(&b); tr("sflush h=%u", se[k].h); } }
         c04_policy_rounds(&b, rounds / 2);
     }
     b_free(&b);
